@@ -1,7 +1,7 @@
 (* C13 - a targeton's outputs do not depend on the other targetons of the run.
    Only statements, closed by `exact`, and their assumptions.  Generated/DbTables.v is re-read from /repo (db.py,
    queries.py, data/ddl.sql, sge_proc.py, targeton.py, meta_table.py, cdna_proc.py) on every run. *)
-From VV Require Import Model.Base Model.History Generated.DbTables Proofs.HistoryProofs.
+From VV Require Import Model.Base Model.Pattern Model.Gpo Model.History Spec.LiftSpec Generated.DbTables Proofs.HistoryProofs Proofs.ContextProofs.
 
 Definition subset_s (a b : list string) : bool := forallb (fun x => existsb (String.eqb x) b) a.
 Definition disjoint_s (a b : list string) : bool := forallb (fun x => negb (existsb (String.eqb x) b)) a.
@@ -42,6 +42,20 @@ Theorem C13_written_tables_cleared :
   subset_s (per_contig_tables ++ per_targeton_tables) ddl_tables = true.
 Proof. vm_compute. repeat split. Qed.
 
+(* with background variants the context (and with it the set of variants the liftover sees) depends on the other targetons
+   of the run.  A wider context that brings in variants upstream of a position moves its background coordinate by their net
+   length, variants downstream change nothing ... *)
+Theorem C13_context_extension : forall pre vs post p,
+  all_before pre p -> all_after post p ->
+  r2a (pre ++ vs ++ post) p = option_map (fun q => q + sum_delta pre) (r2a vs p).
+Proof. exact r2a_context_extension. Qed.
+(* ... and the reference position reported for it is the same in both contexts *)
+Theorem C13_reported_position_context_free : forall lo hi lo' hi' pre vs post p q q',
+  wf lo hi vs -> wf lo' hi' (pre ++ vs ++ post) -> lo <= p -> lo' <= p ->
+  r2a vs p = Some q -> r2a (pre ++ vs ++ post) p = Some q' ->
+  a2r vs q = Some p /\ a2r (pre ++ vs ++ post) q' = Some p.
+Proof. exact reported_position_context_free. Qed.
+
 (* non-vacuity: a toy body that writes one per-targeton table and reads a per-contig one *)
 Example C13_example :
   let body := fun (d : @db nat) (t : nat) => (("alt_pattern_variants"%string, [t]) :: d, Some (t + length (get d "custom_variants"%string))%nat) in
@@ -53,3 +67,5 @@ Proof. vm_compute. auto. Qed.
 Print Assumptions C13_history_independent.
 Print Assumptions C13_frame.
 Print Assumptions C13_written_tables_cleared.
+Print Assumptions C13_context_extension.
+Print Assumptions C13_reported_position_context_free.
